@@ -27,6 +27,10 @@ type XOp struct {
 	// it lacks an element the process is configured to aggregate (the process reports an error for
 	// it, but both nodes have then been received).
 	Incomplete bool `json:"incomplete,omitempty"`
+	// EndMode (rec): "" = the record ends later than the last one from its node; "equal" = at the same
+	// second; "older" = a second earlier (a record overtaken on its way). The deadlines do not depend
+	// on it.
+	EndMode string `json:"end_mode,omitempty"`
 }
 
 // XCase is a history against one aggregation process.
@@ -86,6 +90,9 @@ func RunX(c XCase, st *XStats) *ev.Failure {
 			if !f.NeedsCorrelation() || side == "" {
 				side = "S"
 			}
+			if f.OmitPeerPod && f.NeedsCorrelation() {
+				side = "S"
+			}
 			k := fmt.Sprintf("%d%s", fi, side)
 			if ends[k] == 0 {
 				ends[k] = 2000
@@ -93,14 +100,22 @@ func RunX(c XCase, st *XStats) *ev.Failure {
 					ends[k] = 2001
 				}
 			}
-			ends[k] += 2
-			r := Rec{Flow: fi, Side: side, Start: 1000, End: ends[k], Tot: [4]uint64{uint64(ends[k]), uint64(ends[k]) * 100, 1, 2}, Dlt: [4]uint64{1, 100, 1, 2}, Layout: c.LayoutS}
+			end := ends[k] + 2
+			switch {
+			case o.EndMode == "older" && ends[k] > 2002:
+				end = ends[k] - 1
+			case o.EndMode == "equal" && ends[k] > 2002:
+				end = ends[k]
+			default:
+				ends[k] = end
+			}
+			r := Rec{Flow: fi, Side: side, Start: 1000, End: end, Tot: [4]uint64{uint64(ends[k]), uint64(ends[k]) * 100, 1, 2}, Dlt: [4]uint64{1, 100, 1, 2}, Layout: c.LayoutS}
 			if side == "D" {
 				r.Layout = c.LayoutD
 			}
 			held := m.Flows[fi] != nil
 			correlating := false
-			if x := m.Flows[fi]; x != nil && !x.Ready && side != x.FirstSide {
+			if x := m.Flows[fi]; x != nil && !x.Ready && (side != x.FirstSide || side == "N" || side == "B") {
 				correlating = true
 				if retried[fi] {
 					st.RetryThenPeer = true
@@ -239,6 +254,11 @@ func checkCorrelation(ap *intermediate.AggregationProcess, f FlowDef, x *XFlow, 
 	}
 	if !ap.AreCorrelatedFieldsFilled(*r) {
 		return "correlated flow is not marked filled"
+	}
+	if x.Sides["N"] || x.Sides["B"] {
+		// a record that names neither Pod or both took part (C06's histories only): what the
+		// correlated fields then hold is not something the statements speak about
+		return ""
 	}
 	em := r.Record.GetElementMap()
 	str := func(name, s, d string) string {
